@@ -1640,8 +1640,11 @@ def _t_eval(target, _t, scope):
         elif op == '(':
             args, kwargs = arg
             scope[Path] += t_path[2:i+2:2]
-            cur = scope[glom](
-                target, Call(cur, args, kwargs), scope)
+            # whether cur can be called is found out by calling it, after the
+            # arguments are evaluated (Call() itself rejects a non-callable func)
+            call = Call(args=args, kwargs=kwargs)
+            call.func = cur
+            cur = scope[glom](target, call, scope)
             # call with target rather than cur,
             # because it is probably more intuitive
             # if args to the call "reset" their path
